@@ -788,8 +788,52 @@ def status_table():
     return _status_table
 
 
+def rewrite_status_comparisons(text, log):
+    """R13: `E == StatusCode::A` / `E != StatusCode::A` -> `vp_status_is(E, a)` / `vp_status_is_not(E, a)`; E is the maximal
+    postfix chain (identifiers, `.`, `::`, call parentheses) left of the operator"""
+    while True:
+        s = sig(lex(text))
+        hit = None
+        for i, tk in enumerate(s):
+            if tk.text in ('=', '!') and i > 0 and i + 5 < len(s) and s[i + 1].text == '=' and s[i + 1].start == tk.start + 1 \
+                    and s[i + 2].text == 'StatusCode' and s[i + 3].text == ':' and s[i + 4].text == ':' and s[i + 5].kind == 'ident' \
+                    and s[i + 5].text in status_table() \
+                    and not (s[i - 1].text in ('=', '!', '<', '>') and s[i - 1].start == tk.start - 1):
+                hit = i
+                break
+        if hit is None:
+            return text
+        op_neg = s[hit].text == '!'
+        name_tk = s[hit + 5]
+        j = hit - 1
+        depth = 0
+        start = None
+        while j >= 0:
+            t = s[j].text
+            if t in (')', ']'):
+                depth += 1
+            elif t in ('(', '['):
+                if depth == 0:
+                    break
+                depth -= 1
+            elif depth == 0 and (not (s[j].kind in ('ident', 'num') or t in ('.', ':'))
+                                 or t in ('if', 'while', 'match', 'return', 'let', 'else', 'in', 'mut', 'ref', 'move', 'as', 'break')):
+                break
+            start = j
+            j -= 1
+        if start is None or s[start].text in ('.', ':'):
+            raise GenError('status comparison: no usable left operand')
+        a = s[start].start
+        b = name_tk.start + len(name_tk.text)
+        expr = text[a:s[hit].start].strip()
+        new = '%s(%s, %du16)' % ('vp_status_is_not' if op_neg else 'vp_status_is', expr, status_table()[name_tk.text])
+        log.append(('R13', strip_ws(text[a:b]), strip_ws(new)))
+        text = text[:a] + new + text[b:]
+
+
 def rewrite_status_matches(text, fn, log):
     """R13: `matches!(E, StatusCode::A | StatusCode::B ..)` -> `fn(E, &[a, b, ..])` using the http crate's own code table"""
+    text = rewrite_status_comparisons(text, log)
     while True:
         s = sig(lex(text))
         hit = None
